@@ -475,6 +475,23 @@ func (g *fgen) builtin(f *ssa.Builtin, c *ssa.CallCommon, st *state, pos token.P
 			st.heap[lk] = nl
 			return nil
 		}
+		if sl, ok := c.Args[0].Type().Underlying().(*types.Slice); ok {
+			if _, isS := isStructVal(sl.Elem()); !isS {
+				// clear(s): the cells of s become the zero value, every other cell of the
+				// backing array keeps its value
+				s := args[0]
+				k := g.registerElemKey(sl.Elem())
+				h := g.read(st, k)
+				es := g.sortOf(sl.Elem())
+				na := g.fresh("clr_A", fmt.Sprintf("(Array Int %s)", es))
+				g.fact("true", fmt.Sprintf("(forall ((i!q Int)) (! (= (select %s i!q) (ite (and (<= (s_off %s) i!q) (< i!q (+ (s_off %s) (s_len %s)))) %s (select (select %s (s_arr %s)) i!q))) :pattern ((select %s i!q))))",
+					na, s.t, s.t, s.t, g.zero(sl.Elem()), h, s.t, na))
+				nh := g.fresh("H_"+k, g.heapSort[k])
+				g.fact("true", fmt.Sprintf("(= %s (ite (= (s_arr %s) 0) %s (store %s (s_arr %s) %s)))", nh, s.t, h, h, s.t, na))
+				st.heap[k] = nh
+				return nil
+			}
+		}
 	}
 	g.unsupported("builtin %s", f.Name())
 	g.havocAll(st)
